@@ -2136,7 +2136,20 @@ class sptensor:
 
             # Find the size of the subtensor and renumber the
             # subscripts
+            oldsubs = subs
             [subs, shape] = tt_renumber(subs, self.shape, region)
+            # an index repeated inside a key list selects its entries once per
+            # repetition (tt_renumber knows only the last position of an index)
+            for dim, a_region in enumerate(region):
+                if oldsubs.size > 0 and not isinstance(
+                    a_region, (slice, int, float, np.integer)
+                ):
+                    rows, newidx = np.nonzero(
+                        oldsubs[:, dim][:, None] == np.asarray(a_region)[None, :]
+                    )
+                    if rows.size != oldsubs.shape[0]:
+                        oldsubs, subs, vals = oldsubs[rows], subs[rows], vals[rows]
+                        subs[:, dim] = newidx
 
             # Determine the subscripts
             newsiz = []  # (future) new size
